@@ -356,6 +356,15 @@ def emit_table(T, modname):
         _b(v["main0_guarded"]), _b(v["cleanup_all"]), _b(v["exits"])))
     w("Definition c_program : cls := %s." % _n(sp["program"]))
     w("")
+    w("(* class numbers by name (classes of the Fortran2008 package carry the suffix _08) *)")
+    seen = set()
+    for idx, c in enumerate(T.classes):
+        nm = "cn_" + c.__name__ + ("_08" if ".Fortran2008" in c.__module__ else "")
+        if nm in seen:
+            raise TranslateError("duplicate class name " + nm)
+        seen.add(nm)
+        w("Definition %s : cls := %s." % (nm, _n(idx)))
+    w("")
     return "\n".join(out) + "\n"
 
 
